@@ -9,8 +9,12 @@ practice, counted); the exact-rational instance bounds the rounding on small cas
 final period) is missing in the model: untouched or NaN in the code agrees. (b) dutils.var2h is called on Series whose DatetimeIndex holds the same wall-clock seconds
 in units s/ms/us/ns, naive or time-zone aware; the call into c_hydrodiy_data.var2h is intercepted (arguments
 recorded, arrays padded with a sentinel so that a start scan running off the end stays inside the
-allocation) and origin, size, epoch seconds, returned values and returned index are compared with the
-model's wrapper.
+allocation) and origin, size, epoch seconds, returned values and returned index (the model's labels: wrapperSeries /
+seriesIdx) are compared with the model's wrapper. (c) c_hydrodiy_data.var2h (the Cython entry point) is called directly on
+the caller's own arrays with a stale output buffer: the buffer afterwards and the return code are compared with the model's
+pyxVar2h (cells the kernel must not write keep their stale value), whole call histories with the model's run. (d) for
+every kernel case the driver runs the control skeleton kernelMiss on the Float marks, the Float kernel and the
+exact-rational kernel on stand-in values: the three missing patterns must be the NaN pattern of the real kernel.
 Oracle (real code only, independent of the model): exact rational integration (fractions.Fraction) of the
 piecewise-linear interpolant / of the prorated rainfall increments over every period; a period that is
 not covered by the data or has an invalid interval with positive overlap must be missing; a period all of
@@ -25,12 +29,25 @@ with NaN, negative, tiny negative entries; P in {1800, 3600}; rainfall flag; max
 kernel called with the wrapper's origin/size and with other origins (on a stamp, first stamp, past the
 last stamp, before the first stamp) and sizes (0, 1, periods past the data); malformed stream: decreasing
 stamps, rainfall flag 2 / -1, period 900, fewer than 2 observations, maxgapsec < 3600.
-Glue stream: defaults, positional arguments, numpy scalars, int / float32 value dtypes. Stored-index stream: for every
+Glue stream: defaults, positional arguments, numpy scalars, int / float32 value dtypes, maxgapsec as a non-integer float
+(series with gaps of trunc(maxgapsec) and +-1; the oracle compares with the number passed), display=True / display in
+{1, 2, -1} at the kernel (C stdout silenced). Stored-index stream: for every
 unit / zone variant the index as stored (unit, raw int64, UTC offsets from zoneinfo) goes to the model's wrapperIdx.
 History streams: 2-4 calls on ONE Series object (in-place edit of the returned series, in-place / equal-size edits of
 values and index, other period / arguments, copy / deepcopy / pickle) and on ONE set of kernel buffers (stale
 output buffer, in-place edits), every answer judged against the current state; the oracle reads the periods off
 the returned index, so an answer produced without calling the kernel is judged too.
+Several-records histories: 2-4 calls in one process on DIFFERENT Series objects, each the sibling of the one before: same
+origin and number of periods with the other period length (span halved / doubled) or with other stamps and values, same
+stamps with other values, same values with other stamps, same first and last stamp, same record with another argument /
+storage unit / zone, same length; sometimes the first record again at the end. Each answer is judged against its own
+record, so anything kept between calls under a key that does not capture the whole input shows; the earlier calls are
+stored in the case (`prior`) and replayed first. The same records also go through the kernel one after the other.
+Cython entry point: single calls (origin of the wrapper / a stamp / arbitrary, nvalh = length of a buffer pre-filled with
+stale values), value array of another length, int32 / float32 / strided arrays (must be rejected without a write),
+histories of 3-7 operations on one set of arrays (set a stamp - sometimes out of order -, set a value, scribble over the
+output, call with other period / flag / maxgapsec / origin, rejected calls: origin before the data, period 900, flag 2);
+every accepted call on a well-formed state is judged by the exact oracle, inputs must be unchanged after every call.
 Long-span stream: 2-20 observations over 69-142 years (and short series in 1890 / 2100): 6e5 .. 1.3e6 periods, so that
 i*P and hstartsec + i*P pass 2^31 and 2^32; exact oracle on sampled period indices (ends, both sides of each crossing,
 random) + a float pre-screen of all periods, model compared on slices around the crossings (oracle-only elsewhere).
@@ -382,7 +399,8 @@ def body(ctx):
     stats = {"kernel_bit_equal": 0, "kernel_within_tol": 0, "wrapper_bit_equal": 0, "wrapper_within_tol": 0,
              "rat_cases": 0, "variants": 0, "periods_checked": 0, "periods_nonmissing": 0, "final_period_returned": 0, "malformed_differences": 0,
              "stored_index_cases": 0, "stored_index_skipped": 0, "history_steps": 0,
-             "long_prescreened": 0, "long_model_slices": 0}
+             "long_prescreened": 0, "long_model_slices": 0, "labels_compared": 0, "pyx_calls": 0, "pyx_rejections": 0,
+             "pyx_histories": 0, "display_cases": 0, "missing_patterns_compared": 0}
 
     # ---- the Cython boundary: record the arguments, pad the arrays with a sentinel
     class Proxy:
@@ -409,25 +427,59 @@ def body(ctx):
     proxy = Proxy(dutils.c_hydrodiy_data)
     dutils.c_hydrodiy_data = proxy
 
-    def call_kernel(P, rain, maxgap, hstart, nvalh, secs, vals, bufs=None):
+    import os as _os
+    import sys as _sys
+    libc = ctypes.CDLL(None)
+
+    def quiet_c(fn):
+        """run fn() with the C-level stdout (fd 1) sent to /dev/null: the kernel prints its progress when display == 1"""
+        _sys.stdout.flush()
+        libc.fflush(None)
+        saved, sink = _os.dup(1), _os.open(_os.devnull, _os.O_WRONLY)
+        _os.dup2(sink, 1)
+        try:
+            return fn()
+        finally:
+            libc.fflush(None)
+            _os.dup2(saved, 1)
+            _os.close(saved)
+            _os.close(sink)
+
+    def same_floats(a, b):
+        return len(a) == len(b) and all((isnan(x) and isnan(y)) or C.f2h(float(x)) == C.f2h(float(y)) for x, y in zip(a, b))
+
+    def inputs_kept(ps, pv, secs, vals, where, case):
+        """the model says a call never writes to varsec / varvalues (`call_keeps_inputs`)"""
+        n = len(secs)
+        if [int(x) for x in ps[:n]] != [int(x) for x in secs] or not same_floats(pv[:n], vals):
+            ctx.disagree(f"C14/{where}: the call modified its input arrays (varsec / varvalues)",
+                         {"gen": case.get("gen"), "secs": list(secs)[:20], "after": [int(x) for x in ps[:n]][:20]})
+            ps[:n] = secs
+            pv[:n] = vals
+
+    def call_kernel(P, rain, maxgap, hstart, nvalh, secs, vals, bufs=None, display=0, case=None):
         """bufs = {"ps","pv","hv"}: the SAME arrays as in earlier calls of a history (already holding secs / vals,
         hvalues[0..nvalh-2] still holding whatever an earlier call left there)"""
         n = len(secs)
         if bufs is not None:
             ps, pv, hv = bufs["ps"], bufs["pv"], bufs["hv"]
             assert len(ps) == n + 1 and len(hv) >= max(nvalh, 0) + 1
-            assert [int(x) for x in ps[:n]] == list(secs)
             hv[max(nvalh - 1, 0):] = SENT          # the part the kernel is not obliged to write
-            ierr = lib.c_var2h(n, nvalh, P, rain, 0, maxgap, ps.ctypes.data, pv.ctypes.data, hstart, hv.ctypes.data)
+        else:
+            ps = np.empty(n + 1, dtype=np.int64)
+            ps[:n] = secs
+            ps[n] = INT64_MAX
+            pv = np.empty(n + 1, dtype=np.float64)
+            pv[:n] = vals
+            pv[n] = np.nan
+            hv = np.full(max(nvalh, 0) + 1, SENT, dtype=np.float64)
+
+        def go():
+            return lib.c_var2h(n, nvalh, P, rain, display, maxgap, ps.ctypes.data, pv.ctypes.data, hstart, hv.ctypes.data)
+        ierr = quiet_c(go) if display == 1 else go()
+        inputs_kept(ps, pv, secs, vals, "kernel", case or {})
+        if bufs is not None:
             return ierr, hv[:max(nvalh, 0) + 1].copy()
-        ps = np.empty(n + 1, dtype=np.int64)
-        ps[:n] = secs
-        ps[n] = INT64_MAX
-        pv = np.empty(n + 1, dtype=np.float64)
-        pv[:n] = vals
-        pv[n] = np.nan
-        hv = np.full(max(nvalh, 0) + 1, SENT, dtype=np.float64)
-        ierr = lib.c_var2h(n, nvalh, P, rain, 0, maxgap, ps.ctypes.data, pv.ctypes.data, hstart, hv.ctypes.data)
         return ierr, hv
 
     reqs, pend = [], []    # pend: (kind, impl, case, scale)
@@ -435,7 +487,7 @@ def body(ctx):
     def run_kernel_case(case, tag, bufs=None):
         secs, vals = case["secs"], dec_vals(case["vals"])
         P, rain, maxgap, hstart, nvalh = case["P"], case["rain"], case["maxgap"], case["hstart"], case["nvalh"]
-        ierr, hv = call_kernel(P, rain, maxgap, hstart, nvalh, secs, vals, bufs)
+        ierr, hv = call_kernel(P, rain, maxgap, hstart, nvalh, secs, vals, bufs, display=case.get("display", 0), case=case)
         scale = max([abs(v) for v in vals if not isnan(v)] + [1.0])
         wellformed = (rain in (0, 1) and P in (1800, 3600) and len(secs) >= 2 and maxgap >= 3600
                       and all(a <= b for a, b in zip(secs, secs[1:])) and secs[0] <= hstart)
@@ -487,6 +539,10 @@ def body(ctx):
         reqs.append(f"kernel {P} {rain} {maxgap} {C.f2h(EPS)} {hstart} {nvalh} {C.ilist(secs)} {C.flist(vals)}")
         case = {**case, "_wellformed": wellformed}
         pend.append(("kernel", impl, case, scale))
+        # which periods are missing: the control skeleton on the marks, the Float kernel and the exact kernel on stand-in
+        # values must all give the pattern of the real kernel (missing_pattern_is_skeleton / _same_as_exact)
+        reqs.append(f"kmiss {P} {rain} {maxgap} {C.f2h(EPS)} {hstart} {nvalh} {C.ilist(secs)} {C.flist(vals)}")
+        pend.append(("kmiss", impl if isinstance(impl, str) else [isnan(x) for x in impl[:max(nvalh - 1, 0)]], case, scale))
         if case.get("rat"):
             rv = "[" + ",".join("nan" if isnan(v) else C.rat(v) for v in vals) + "]"
             reqs.append(f"kernelq {P} {rain} {maxgap} 1/100000000 {hstart} {nvalh} {C.ilist(secs)} {rv}")
@@ -550,6 +606,8 @@ def body(ctx):
                 r = dutils.var2h(se, nbsec_per_period=np.int64(P), maxgapsec=np.int64(maxgap), rainfall=np.bool_(rain))
             elif style == "int_flag":
                 r = dutils.var2h(se, nbsec_per_period=P, maxgapsec=float(maxgap), rainfall=int(rain))
+            elif style == "display":
+                r = quiet_c(lambda: dutils.var2h(se, P, maxgap, bool(rain), True))
             else:
                 r = dutils.var2h(se, nbsec_per_period=P, maxgapsec=maxgap, rainfall=bool(rain))
             live["r"] = r
@@ -599,12 +657,13 @@ def body(ctx):
                     sidx = live["se"].index
                     raw = [int(x) for x in sidx.asi8]
                     offs = utc_offsets(raw, sidx.unit, tz)
-                    reqs.append(f"wrapperidx {P} {rain} {maxgap} {C.f2h(EPS)} {sidx.unit} {C.ilist(raw)} {C.ilist(offs)} "
+                    reqs.append(f"wrapperidx {P} {rain} {int(maxgap)} {C.f2h(EPS)} {sidx.unit} {C.ilist(raw)} {C.ilist(offs)} "
                                 f"{C.flist(vals)}")
                     impl_i = ("err " + res[1]) if res[0] == "err" else (
                         rec["hstartsec"] if rec else (res[2][0] if res[2] else None), res[1])
                     pend.append(("wrapperidx", impl_i, {**vcase, "_wellformed": True, "_open": open_idx,
-                                                        "_varsec": rec["varsec"] if rec else None}, scale))
+                                                        "_varsec": rec["varsec"] if rec else None,
+                                                        "_labels": (res[2] if res[0] == "ok" and res[3] else None)}, scale))
                     stats["stored_index_cases"] += 1
                 except Exception as exc:       # an index pandas cannot describe this way: nothing to compare
                     stats["stored_index_skipped"] += 1
@@ -646,8 +705,14 @@ def body(ctx):
                         stats["periods_checked"] += len(outs)
                         stats["periods_nonmissing"] += sum(1 for x in outs if not isnan(x))
                         stats["final_period_returned"] += sum(1 for x in outs[-1:] if not isnan(x))
-                reqs.append(f"wrapper {P} {rain} {maxgap} {C.f2h(EPS)} {C.ilist(secs)} {C.flist(vals)}")
-                pend.append(("wrapper", impl, {**vcase, "_wellformed": wellformed, "_open": open_idx}, scale))
+                if isinstance(maxgap, float):
+                    # maxgapsec passed as a float: the model casts it like np.int32 (maxgapOfArg); the oracle above
+                    # compares interval lengths with the number that was passed
+                    reqs.append(f"wrapperarg {P} {rain} {C.rat(maxgap)} {C.f2h(EPS)} {C.ilist(secs)} {C.flist(vals)}")
+                else:
+                    reqs.append(f"wrapper {P} {rain} {maxgap} {C.f2h(EPS)} {C.ilist(secs)} {C.flist(vals)}")
+                pend.append(("wrapper", impl, {**vcase, "_wellformed": wellformed, "_open": open_idx,
+                                               "_labels": (res[2] if res[0] == "ok" and res[3] else None)}, scale))
             else:
                 same = (res[0] == ref[0]) and (
                     res[1] == ref[1] if res[0] == "err" else
@@ -816,10 +881,17 @@ def body(ctx):
         else:
             c["kind"] = "wrapper"
             c.setdefault("variants", [[c.get("unit", "ns"), c.get("tz")], ["ns", None], ["us", None], ["s", "UTC"]])
+            # a failing input found by the several-records history stream is the whole history: earlier calls first
+            for p in c.get("prior") or []:
+                if isinstance(p, dict) and "secs" in p:
+                    run_case({**p, "kind": "wrapper", "gen": "replay/prior"}, "replay/prior")
         run_case(c, "replay")
     for f in sorted((C.ROOT / "corpus" / PID).glob("*.json")):
         c = json.loads(f.read_text())
-        run_case(c["case"] if "case" in c else c, "corpus")
+        c = c["case"] if "case" in c else c
+        for p in c.get("prior") or []:          # a history of several records: the earlier calls first
+            run_case({**p, "kind": "wrapper", "gen": "corpus/prior"}, "corpus/prior")
+        run_case(c, "corpus")
 
     # ---------------- structured stream
     def pick_variants(secs, k):
@@ -913,9 +985,12 @@ def body(ctx):
 
     # ---------------- glue: defaults, positional arguments, numpy scalars, value dtypes
     for it in range(ctx.scale(150, 1500)):
-        style = rng.choice(["defaults", "positional", "numpy_scalars", "int_flag", "int_values", "float32_values"])
+        style = rng.choice(["defaults", "positional", "numpy_scalars", "int_flag", "int_values", "float32_values",
+                            "float_maxgap", "float_maxgap"])
         maxgap = 432000 if style == "defaults" else rng.choice([3600, 7200, 86400, 432000])
-        secs, skind, off = gen_secs(rng, maxgap)
+        if style == "float_maxgap":
+            maxgap = rng.choice([3600, 3601, 5400, 7200, 86400]) + rng.choice([0.5, 0.9, 0.25, 0.999, 0.0625])
+        secs, skind, off = gen_secs(rng, int(maxgap), kind=("gapedge" if style == "float_maxgap" and rng.random() < 0.7 else None))
         if secs[-1] - secs[0] > 3000 * 1800:
             continue
         vals, vkind = gen_vals(rng, len(secs))
@@ -1073,6 +1148,297 @@ def body(ctx):
                              "gen": f"history/{skind}/" + ">".join(trail)}, "history", bufs=bufs)
             stats["history_steps"] += 1
 
+    # ---------------- histories over SEVERAL records in one process: call(A) -> call(B) -> call(A or C), where B is a
+    # *sibling* of A: another Series object that agrees with A on some of the quantities the wrapper derives (origin,
+    # number of periods, first / last stamp, the stamps, the values, the length, the arguments) and differs in the
+    # others. Anything the code keeps between calls under a key that does not capture the whole input (an output index
+    # shared per (origin, size), converted stamps kept per index, a result kept per object id ...) answers B with a
+    # piece of A. Every answer is judged against its own record (periods read off the returned index).
+    def stamps_between(first, span, n):
+        out = [first]
+        for _ in range(max(n - 2, 0)):
+            t = first + rng.randrange(0, span + 1)
+            if rng.random() < 0.3:
+                t = min(max((t // 1800) * 1800, first), first + span)       # on a period boundary
+            out.append(t)
+        out.append(first + span)
+        return sorted(out)
+
+    SIB_MODES = ["origin_size/other_period", "origin_size/other_period", "origin_size/same_period", "same_stamps/other_values",
+                 "same_values/other_stamps", "same_ends/other_interior", "same_record/other_args",
+                 "same_wallclock/other_storage", "same_length/other_record"]
+
+    def sibling(rec, mode):
+        secs, vals = rec["secs"], dec_vals(rec["vals"])
+        P, rain, maxgap = rec["P"], rec["rain"], rec["maxgap"]
+        unit, tz = rec["variants"][0]
+        first, last = secs[0], secs[-1]
+        nv = int((last - first) / P)
+        hour0 = first // HOUR * HOUR
+        if mode.startswith("origin_size"):
+            P2 = 5400 - P if mode.endswith("other_period") else P
+            f2 = hour0 + rng.choice([first - hour0, first - hour0, 0, 1, 1799, 1800, 3599, rng.randrange(HOUR)])
+            span2 = max(nv * P2 + rng.choice([0, 1, P2 - 1, rng.randrange(P2)]), 1)
+            secs2 = stamps_between(f2, span2, rng.choice([2, 3, 4, 6, 9, 15]))
+            vals2, _ = gen_vals(rng, len(secs2))
+            P = P2
+            secs, vals = secs2, vals2
+        elif mode == "same_stamps/other_values":
+            vals, _ = gen_vals(rng, len(secs))
+        elif mode == "same_values/other_stamps":
+            how = rng.choice(["hours", "within_hour", "respace"])
+            if how == "hours":
+                d = HOUR * rng.randint(1, 30)
+                secs = [t + d for t in secs]
+            elif how == "within_hour":
+                d = rng.choice([1, -1, 600, 1799, 1800, 1801])
+                secs = [t + d for t in secs]
+            else:
+                secs = stamps_between(first, max(last - first, 1), len(secs))
+        elif mode == "same_ends/other_interior":
+            secs = stamps_between(first, max(last - first, 1), rng.choice([2, 3, 5, 8, len(secs)]))
+            vals, _ = gen_vals(rng, len(secs))
+        elif mode == "same_record/other_args":
+            what = rng.choice(["rain", "maxgap", "period"])
+            if what == "rain":
+                rain = 1 - rain
+            elif what == "maxgap":
+                maxgap = rng.choice([g for g in (3600, 7200, 86400, 432000) if g != maxgap])
+            else:
+                P = 5400 - P
+        elif mode == "same_wallclock/other_storage":
+            unit = rng.choice([u for u in UNITS if u != unit])
+            tz = rng.choice(FIXED_TZ)
+        else:   # same_length/other_record
+            n = len(secs)
+            secs, _, _ = gen_secs(rng, maxgap, n=n)
+            secs = secs[:n] if rng.random() < 0.7 else secs
+            vals, _ = gen_vals(rng, len(secs))
+        return {"secs": list(secs), "vals": enc_vals(vals), "P": P, "rain": rain, "maxgap": maxgap, "kind": "wrapper",
+                "variants": [(unit, tz)]}
+
+    def brief(rec):
+        return {k: rec[k] for k in ("secs", "vals", "P", "rain", "maxgap", "variants")}
+
+    def run_sibling_history(recs, tag):
+        """recs = the records in call order (each judged on its own); the earlier calls are kept in the case
+        (`prior`) so that a failing input is the whole history"""
+        for k, rec in enumerate(recs):
+            run_wrapper_case({**rec, "prior": [brief(r) for r in recs[:k]]}, tag)
+            stats["history_steps"] += 1
+
+    for it in range(ctx.scale(220, 2200)):
+        maxgap = rng.choice([3600, 86400, 432000, 432000])
+        secs, skind, off = gen_secs(rng, maxgap, n=rng.choice([2, 3, 4, 6, 9, 15]))
+        if secs[-1] - secs[0] > 400 * 1800:
+            continue
+        vals, vkind = gen_vals(rng, len(secs))
+        recA = {"secs": secs, "vals": enc_vals(vals), "P": rng.choice([1800, 3600]), "rain": rng.choice([0, 0, 1]),
+                "maxgap": maxgap, "kind": "wrapper", "variants": [(rng.choice(UNITS), rng.choice(FIXED_TZ))],
+                "gen": f"siblings/{skind}/A"}
+        recs, trail = [recA], []
+        for step in range(rng.randint(1, 3)):
+            if step > 0 and rng.random() < 0.3:
+                trail.append("again:" + str(0))
+                recs.append({**recs[0], "gen": f"siblings/{skind}/" + ">".join(trail)})
+                continue
+            mode = rng.choice(SIB_MODES)
+            trail.append(mode)
+            nxt = sibling(recs[-1], mode)
+            if nxt["secs"][-1] - nxt["secs"][0] > 400 * 1800:
+                break
+            recs.append({**nxt, "gen": f"siblings/{skind}/" + ">".join(trail)})
+        run_sibling_history(recs, "siblings")
+        # the same records through the kernel, one call after the other (fresh arrays, the wrapper's origin and size)
+        if it % 2 == 0:
+            for rec in recs:
+                f0, l0 = rec["secs"][0], rec["secs"][-1]
+                run_kernel_case({"secs": rec["secs"], "vals": rec["vals"], "P": rec["P"], "rain": rec["rain"],
+                                 "maxgap": rec["maxgap"], "kind": "kernel", "hstart": origin_of(f0),
+                                 "nvalh": int((l0 - f0) / rec["P"]), "gen": rec["gen"]}, "siblings")
+
+    # ---------------- the display flag: progress is printed, the answer must be the same (C stdout silenced meanwhile)
+    for it in range(ctx.scale(60, 400)):
+        maxgap = rng.choice([3600, 86400, 432000])
+        secs, skind, off = gen_secs(rng, maxgap)
+        if secs[-1] - secs[0] > 3000 * 1800:
+            continue
+        vals, vkind = gen_vals(rng, len(secs))
+        P, rain = rng.choice([1800, 3600]), rng.choice([0, 1])
+        base = {"secs": secs, "vals": enc_vals(vals), "P": P, "rain": rain, "maxgap": maxgap, "gen": f"display/{skind}/{vkind}"}
+        run_kernel_case({**base, "kind": "kernel", "hstart": origin_of(secs[0]), "nvalh": int((secs[-1] - secs[0]) / P),
+                         "display": rng.choice([1, 1, 2, -1])}, "display")
+        if it % 2 == 0:
+            run_wrapper_case({**base, "kind": "wrapper", "style": "display", "variants": [(rng.choice(UNITS), None)]}, "display")
+        stats["display_cases"] += 1
+
+    # ---------------- the Cython entry point c_hydrodiy_data.var2h called directly on the caller's own arrays: nvalh is
+    # the length of hvalues, which holds stale values; single calls, then histories (edit / scribble / call / rejected call)
+    real = proxy._real
+    STALE = [SENT, 4321.0, -3.0, float("nan"), 1e300]
+
+    def pyx_call(P, rain, maxgap, hstart, ps, pv, hv, display=0):
+        """-> 0 | guard name | 'lengthMismatch' | 'raise:<exception type>'"""
+        try:
+            def go():
+                return real.var2h(maxgap, hstart, P, rain, display, ps, pv, hv)
+            ierr = quiet_c(go) if display == 1 else go()
+        except AssertionError:
+            return "lengthMismatch"
+        except Exception as exc:
+            return "raise:" + type(exc).__name__
+        return 0 if ierr == 0 else guards.get(int(ierr), f"code{ierr}")
+
+    def judge_pyx_call(case, pre, post, code, tag):
+        """one direct call: oracle on the values written (inside the quantifier only) + request to the model's pyxVar2h;
+        -> indices of the periods the property leaves open"""
+        secs, vals = case["secs"], dec_vals(case["vals"])
+        P, rain, maxgap, hstart = case["P"], case["rain"], case["maxgap"], case["hstart"]
+        nvalh = len(pre)
+        nvals = case.get("nvals", len(secs))
+        scale = max([abs(v) for v in vals if not isnan(v)] + [1.0])
+        wellformed = (rain in (0, 1) and P in (1800, 3600) and len(secs) >= 2 and maxgap >= 3600 and nvals == len(secs)
+                      and all(a <= b for a, b in zip(secs, secs[1:])) and secs[0] <= hstart)
+        open_idx = []
+        nontrivial = False
+        stats["pyx_calls"] += 1
+        if wellformed and code != 0:
+            ctx.finding("kernel/error_on_sorted_input", "c_hydrodiy_data.var2h returns an error code / raises on a "
+                        "non-decreasing series whose first stamp is not later than the origin", {**case, "guard": str(code)})
+        elif wellformed and nvalh >= 1:
+            outs = [float(x) for x in post[:nvalh - 1]]
+            last = float("nan") if same_floats(post[-1:], pre[-1:]) else float(post[-1])
+            ex = Exact(secs, vals, P, rain, maxgap)
+            nontrivial = check_periods(ctx, "kernel", {**case, "kind": "kernel", "nvalh": nvalh}, ex, hstart, outs + [last], tag,
+                                       final=nvalh - 1, open_out=open_idx)
+            stats["periods_checked"] += nvalh
+            stats["periods_nonmissing"] += sum(1 for x in outs if not isnan(x))
+        if not str(code).startswith("raise:"):
+            vv = vals[:nvals] if nvals <= len(vals) else vals + [1.0] * (nvals - len(vals))
+            reqs.append(f"pyx {P} {rain} {maxgap} {C.f2h(EPS)} {hstart} {C.ilist(secs)} {C.flist(vv)} {C.flist(pre)}")
+            pend.append(("pyx", (code, [float(x) for x in post]), {**case, "_wellformed": wellformed, "_open": open_idx,
+                                                                    "_stale": [float(x) for x in pre[-1:]]}, scale))
+        ctx.count(("pyx", P, rain, maxgap, hstart, nvalh, tuple(secs), tuple(case["vals"])), nontrivial,
+                  f"pyx/{tag}/P={P}/rain={rain}" + ("" if code == 0 else "/" + str(code)))
+        return open_idx, wellformed
+
+    for it in range(ctx.scale(300, 3000)):
+        maxgap = rng.choice([3600, 7200, 86400, 432000])
+        secs, skind, off = gen_secs(rng, maxgap, n=rng.choice([2, 3, 4, 6, 9, 15, 30]))
+        if secs[-1] - secs[0] > 400 * 1800:
+            continue
+        n = len(secs)
+        vals, vkind = gen_vals(rng, n)
+        P, rain = rng.choice([1800, 3600]), rng.choice([0, 0, 1])
+        hstart = rng.choice([origin_of(secs[0]), origin_of(secs[0]), secs[0], rng.choice(secs),
+                             secs[0] + rng.randint(0, max(secs[-1] - secs[0], 1))])
+        nvalh = max(int((secs[-1] - hstart) // P) + rng.choice([0, 1, 1, 2]), 0)
+        ps = np.empty(n + 1, dtype=np.int64)
+        ps[:n], ps[n] = secs, INT64_MAX
+        pv = np.empty(n + 1, dtype=np.float64)
+        pv[:n], pv[n] = vals, np.nan
+        hv = np.array([rng.choice(STALE) for _ in range(nvalh)], dtype=np.float64)
+        pre = [float(x) for x in hv]
+        case = {"secs": secs, "vals": enc_vals(vals), "P": P, "rain": rain, "maxgap": maxgap, "hstart": int(hstart),
+                "gen": f"pyx/{skind}/{vkind}"}
+        mode = rng.choice(["plain"] * 8 + ["mismatch", "dtype", "strided", "display"])
+        if mode == "plain" or mode == "display":
+            code = pyx_call(P, rain, maxgap, hstart, ps[:n], pv[:n], hv, display=1 if mode == "display" else 0)
+            inputs_kept(ps, pv, secs, vals, "pyx", case)
+            judge_pyx_call(case, pre, hv, code, "direct")
+        elif mode == "mismatch":
+            m = rng.choice([n - 1, n + 1, 0]) if n > 1 else n + 1
+            pv2 = np.ones(m, dtype=np.float64)
+            pv2[:min(m, n)] = pv[:min(m, n)]
+            code = pyx_call(P, rain, maxgap, hstart, ps[:n], pv2, hv)
+            judge_pyx_call({**case, "nvals": m}, pre, hv, code, "mismatch")
+        else:
+            # arrays the typed signature does not take (int32 stamps, float32 values, strided output): rejected by
+            # Cython before the kernel is reached - whatever is raised, nothing may have been written
+            if mode == "dtype":
+                a1, a2, a3 = (ps[:n].astype(np.int32), pv[:n], hv) if rng.random() < 0.5 else (ps[:n], pv[:n].astype(np.float32), hv)
+            else:
+                big = np.repeat(hv, 2)
+                a1, a2, a3 = ps[:n], pv[:n], big[::2]
+            code = pyx_call(P, rain, maxgap, hstart, a1, a2, a3)
+            stats["pyx_rejections"] += 1
+            if str(code).startswith("raise:") and not same_floats(hv, pre):
+                ctx.disagree("C14/pyx: a call rejected at the Cython boundary wrote into hvalues",
+                             {"gen": case["gen"], "mode": mode, "raised": code})
+
+    for it in range(ctx.scale(150, 1500)):
+        maxgap = rng.choice([3600, 86400, 432000])
+        secs, skind, off = gen_secs(rng, maxgap, n=rng.choice([2, 3, 5, 8, 14]))
+        if secs[-1] - secs[0] > 200 * 1800:
+            continue
+        n = len(secs)
+        vals, vkind = gen_vals(rng, n)
+        P, rain = rng.choice([1800, 3600]), rng.choice([0, 0, 1])
+        hstart = origin_of(secs[0])
+        nvalh = max(int((secs[-1] - secs[0]) / P), 1)
+        ps = np.empty(n + 1, dtype=np.int64)
+        ps[:n], ps[n] = secs, INT64_MAX
+        pv = np.empty(n + 1, dtype=np.float64)
+        pv[:n], pv[n] = vals, np.nan
+        hv = np.array([rng.choice(STALE) for _ in range(nvalh)], dtype=np.float64)
+        init = (list(secs), list(vals), [float(x) for x in hv])
+        ops, codes, all_open, all_wellformed = [], [], set(), True
+        nops = rng.randint(2, 6)
+        for k in range(nops + 1):
+            act = "C" if k == nops else rng.choice(["C", "C", "S", "V", "V", "X"])
+            if act == "S":
+                j = rng.randrange(n)
+                lo = secs[j - 1] if j > 0 else secs[0] - 3000
+                hi = secs[j + 1] if j + 1 < n else secs[-1] + 3000
+                t = rng.randint(lo, hi) if rng.random() < 0.9 else rng.choice([lo - rng.randint(1, 4000), hi + rng.randint(1, 4000)])
+                secs[j] = t
+                ps[j] = t
+                ops.append(f"S:{j}:{t}")
+                codes.append(0)
+            elif act == "V":
+                j = rng.randrange(n)
+                v = rng.choice([float("nan"), -1.0, 0.0, rng.uniform(0, 50)])
+                vals[j] = v
+                pv[j] = v
+                ops.append(f"V:{j}:{C.f2h(v)}")
+                codes.append(0)
+            elif act == "X":
+                v = rng.choice(STALE)
+                hv[:] = v
+                ops.append(f"X:{C.f2h(v)}")
+                codes.append(0)
+            else:
+                r = rng.random()
+                if r < 0.5:
+                    hstart = origin_of(secs[0])
+                elif r < 0.9:
+                    hstart = rng.choice([secs[0], rng.choice(secs), secs[0] + rng.randint(0, max(secs[-1] - secs[0], 1))])
+                else:
+                    hstart = secs[0] - rng.randint(1, 5000)          # rejected: origin before the first stamp
+                if rng.random() < 0.3:
+                    P = 5400 - P
+                Pc = P if rng.random() < 0.95 else 900                  # rejected: period
+                rc = rain if rng.random() < 0.95 else 2                 # rejected: rainfall flag
+                if rng.random() < 0.3:
+                    rain = 1 - rain
+                    maxgap = rng.choice([3600, 86400, 432000])
+                pre = [float(x) for x in hv]
+                code = pyx_call(Pc, rc, maxgap, int(hstart), ps[:n], pv[:n], hv)
+                inputs_kept(ps, pv, secs, vals, "pyx-history", {"gen": "pyxhist"})
+                case = {"secs": list(secs), "vals": enc_vals(vals), "P": Pc, "rain": rc, "maxgap": maxgap, "hstart": int(hstart),
+                        "gen": f"pyxhist/{skind}/" + ">".join(o[0] for o in ops)}
+                opn, wf = judge_pyx_call(case, pre, hv, code, "history")
+                all_open.update(opn)
+                all_wellformed = all_wellformed and wf
+                ops.append(f"C:{Pc}:{rc}:{maxgap}:{C.f2h(EPS)}:{int(hstart)}")
+                codes.append(code)
+        reqs.append(f"hist {C.ilist(init[0])} {C.flist(init[1])} {C.flist(init[2])} " + ";".join(ops))
+        pend.append(("hist", (codes, [float(x) for x in hv]),
+                     {"gen": f"pyxhist/{skind}", "_wellformed": all_wellformed, "_open": sorted(all_open), "_stale": STALE},
+                     max([abs(v) for v in vals if not isnan(v)] + [1.0])))
+        stats["pyx_histories"] += 1
+        stats["history_steps"] += len(ops)
+
     # ---------------- long spans: i*P and hstartsec + i*P beyond 32 bits
     YEAR = 31557600
     long_cfgs = [("epoch70", 0, (69, 75), 3600), ("epoch70", 0, (69, 75), 1800), ("y2040", 2208988800, (69, 75), 3600),
@@ -1143,6 +1509,13 @@ def body(ctx):
             run_wrapper_case({**base, "maxgap": mg, "kind": "wrapper", "variants": [("ns", None)]}, "malformed/" + mk)
 
     # ---------------- correspondence
+    def final_cell(buf, case):
+        """hvalues[nvalh-1] is the final period, which the property lets be missing: a stale value left there (what the
+        model says) and a NaN written there are the same answer; a number written there is compared (and judged by the oracle)"""
+        if buf and (isnan(buf[-1]) or any(same_floats([buf[-1]], [x]) for x in case.get("_stale", ()))):
+            return list(buf[:-1]) + [float("nan")]
+        return list(buf)
+
     replies = lean.ask(reqs)
     for req, rep, (kind, impl, case, scale) in zip(reqs, replies, pend):
         ok = False
@@ -1168,25 +1541,59 @@ def body(ctx):
             if rep.startswith("ok "):
                 mv = [C.h2f(t) for t in C.parse_list(rep[3:])]
                 ok, bit = compare_lists(impl, mv[1:], scale, case.get("_open", ()))
+        elif kind == "kmiss":
+            if isinstance(impl, str):
+                ok = rep == impl
+            elif rep.startswith("ok "):
+                pats = [[t == "1" for t in C.parse_list(x)] for x in rep.split(" ")[1:]]
+                opn = set(case.get("_open", ()))
+                ok = len(pats) == 3 and all(len(pt) == len(impl) and all(k in opn or a == b for k, (a, b) in enumerate(zip(pt, impl)))
+                                            for pt in pats)
+                if ok:
+                    stats["missing_patterns_compared"] += 1
+        elif kind == "pyx":
+            code, post = impl
+            parts = rep.split(" ")
+            if code == 0:
+                ok = parts[0] == "ok" and len(parts) == 2
+            else:
+                ok = parts[0] == "err" and len(parts) == 3 and parts[1] == code
+            if ok:
+                ok, bit = compare_lists(final_cell(post, case), final_cell([C.h2f(t) for t in C.parse_list(parts[-1])], case),
+                                        scale, case.get("_open", ()))
+        elif kind == "hist":
+            codes, post = impl
+            parts = rep.split(" ")
+            if len(parts) == 2 and C.parse_list(parts[1]) == [str(x) for x in codes]:
+                ok, bit = compare_lists(final_cell(post, case), final_cell([C.h2f(t) for t in C.parse_list(parts[0])], case),
+                                        scale, case.get("_open", ()))
         elif kind == "wrapperidx":
             parts = rep.split(" ")
-            msecs = [int(t) for t in C.parse_list(parts[-1])] if len(parts) >= 3 else None
+            msecs = ([int(t) for t in C.parse_list(parts[-1])] if len(parts) == 3 else
+                     [int(t) for t in C.parse_list(parts[4])] if len(parts) == 5 else None)
             secs_ok = case.get("_varsec") is None or msecs == case["_varsec"]
             if isinstance(impl, str):
                 ok = secs_ok and " ".join(parts[:2]) == impl
-            elif parts[0] == "ok" and len(parts) == 4:
+            elif parts[0] == "ok" and len(parts) == 5:
                 mv = [C.h2f(t) for t in C.parse_list(parts[2])]
                 ok, bit = compare_lists(impl[1], mv, scale, case.get("_open", ()))
                 # an empty result has no origin: origin compared only when there is at least one period
                 ok = ok and secs_ok and (not impl[1] or (impl[0] is not None and int(parts[1]) == impl[0]))
+                # the time labels of the returned series are those of the model's seriesIdx
+                if ok and case.get("_labels") is not None:
+                    ok = [int(t) for t in C.parse_list(parts[3])] == case["_labels"]
         else:
             if isinstance(impl, str):
                 ok = rep == impl
             elif rep.startswith("ok "):
-                _, hs, lst = rep.split(" ")
+                _, hs, lst, labs = rep.split(" ")
                 mv = [C.h2f(t) for t in C.parse_list(lst)]
                 ok, bit = compare_lists(impl[1], mv, scale, case.get("_open", ()))
                 ok = ok and (not impl[1] or (impl[0] is not None and int(hs) == impl[0]))
+                # the time labels of the returned series are those of the model's wrapperSeries
+                if ok and case.get("_labels") is not None:
+                    ok = [int(t) for t in C.parse_list(labs)] == case["_labels"]
+                    stats["labels_compared"] += 1
                 if ok:
                     stats["wrapper_bit_equal" if bit else "wrapper_within_tol"] += 1
         if not ok and not case.get("_wellformed", True):
@@ -1196,6 +1603,8 @@ def body(ctx):
             continue
         if not ok:
             shown = impl if isinstance(impl, str) else (
+                f"{impl[0]} " + fmt_out(impl[1])[3:] if kind in ("pyx", "hist") else
+str(impl) if kind == "kmiss" else
                 fmt_out(impl) if kind not in ("wrapper", "wrapperidx") else f"ok {impl[0]} " + fmt_out(impl[1])[3:])
             ctx.disagree(f"C14/{kind}: implementation and model differ",
                          {"request": req[:3000], "impl": shown[:3000], "model": rep[:3000], "gen": case.get("gen"),
